@@ -54,13 +54,15 @@ fn gen_paged_x(rng: &mut Rng, n: usize, out: &mut Vec<String>, early: bool) {
     for i in 0..n {
         let total = rng.below(30) as usize; let psize = 1 + rng.below(8) as usize;
         let npages = if total == 0 { 1 } else { (total + psize - 1) / psize };
-        let mut tok = 0; let mut pages = vec![];
+        let mut tok = 0; let mut pages = vec![]; let mut prev_cookie = String::new();
         for pg in 0..npages {
             let cnt = psize.min(total - pg * psize.min(total));
             let mut its: Vec<String> = vec![];
             for _ in 0..if total == 0 { 0 } else { cnt } { tok += 1; its.push(match rng.below(8) { 0 => format!("r{}", tok), 1 => format!("i{}", tok), _ => format!("e{}", tok) }); }
             let last = pg == npages - 1;
-            let cookie = if last { if rng.chance(1, 3) { "none".to_string() } else { "-".to_string() } } else { hex(&rng.bytes(*rng.clone().pick(&[1usize, 2, 8, 300]))) };
+            // the cookie is opaque: a server may hand out the same one on consecutive pages (a session handle)
+            let cookie = if last { if rng.chance(1, 3) { "none".to_string() } else { "-".to_string() } } else if pg > 0 && rng.chance(1, 4) { prev_cookie.clone() } else { hex(&rng.bytes(*rng.clone().pick(&[1usize, 2, 8, 300]))) };
+            prev_cookie = cookie.clone();
             its.push(format!("d{}.{}.{}", if last { *rng.pick(&[0u32, 0, 4]) } else { 0 }, cookie, rng.below(3)));
             pages.push(its.join(","));
         }
